@@ -46,15 +46,15 @@ var allBlocks = [][]string{
 	{"a=2"},
 	{"a=1", "b=1"},
 	{" c = 3 "},
-	{"a=2", txMalformed},              // valid tx staged before the malformed one
-	{"b=1", "=v"},                     // empty key
-	{"a=2", "/genesis/initialized=x"}, // reserved key after a valid tx
-	{"finalizedHeight=9"},             // the key SetFinal uses, as a user key
+	{"a=2", txMalformed},             // valid tx staged before the malformed one
+	{"b=1", "=v"},                    // empty key
+	{"a=2", "genesis/initialized=x"}, // reserved key (written without the leading slash) after a valid tx
+	{"finalizedHeight=9"},            // the key SetFinal uses, as a user key
 	{"a=1", "/finalizedHeight=9"},
 	// thorough only:
 	{"b=1", "a=2", "a=1"}, // last write wins inside a block
 	{txMalformed, "b=1"},
-	{"genesis/stateroot=zz", "b=1"}, // reserved key without the leading slash
+	{"/genesis/stateroot=zz", "b=1"}, // the other reserved key, first in the block
 }
 
 type txClass int
